@@ -1,5 +1,6 @@
 import TantivyModel.Proofs.GrammarFold
 import TantivyModel.Proofs.GrammarSimplify
+import TantivyModel.Proofs.GrammarFoldNeg
 import TantivyModel.Proofs.GrammarChars
 import TantivyModel.Proofs.GrammarPhrase
 import TantivyModel.Proofs.GrammarCharsPrint
@@ -89,6 +90,33 @@ example (a b c d e f : Bool) :
 
 example : (lenientFold ((chainFrom none (.leaf 1 : Ast Nat) [(.and, .leaf 2), (.or, .leaf 3)]).map rawOf)).1
     = .clause [(some .should, .clause [(some .must, .leaf 1), (some .must, .leaf 2)]), (some .should, .leaf 3)] := rfl
+
+/-- **AND/OR chains whose operands may carry `-`** (covers the operand bound to AND, e.g.
+    `a OR -b AND c`, where no "should-not" may be synthesised). For every operand list
+    `[-]a₀ op₁ [-]a₁ … opₙ [-]aₙ` the folded tree means the OR over the maximal AND-runs, where a
+    run holds iff it has an unmarked operand, all its unmarked operands hold and none of its `-`
+    operands holds; in particular a lone `-x` between ORs (the synthesised should-not) and a run
+    of only `-` operands contribute nothing. `C16_precedence` is the case without markers. -/
+theorem C16_precedence_markers (m : Mode) (res : L → LAst T) (v : T → Bool) (n0 : Bool) (a0 : Ast L)
+    (rest : List (BinOp × Bool × Ast L))
+    (hd0 : isDead (toLogical m res a0) = false)
+    (hdr : ∀ x ∈ rest, isDead (toLogical m res x.2.2) = false) :
+    semAst m res v (lenientFold ((chainFromN none n0 a0 rest).map rawOf)).1
+      = runsN (!n0) (litv n0 (semAst m res v a0))
+          (rest.map fun x => (x.1, x.2.1, semAst m res v x.2.2)) := by
+  rw [lenientFold_map_rawOf _ (by rfl)]
+  exact precedenceN_sem m res v n0 a0 rest hd0 hdr
+
+/-- `a OR -b AND c` = `a ∨ (¬b ∧ c)`, `a OR -b` = `a`, `-a AND -b` = nothing -/
+example (a b c : Bool) :
+    runsN (!false) (litv false a) [(.or, true, b), (.and, false, c)] = (a || (!b && c))
+    ∧ runsN (!false) (litv false a) [(.or, true, b)] = a
+    ∧ runsN (!true) (litv true a) [(.and, true, b)] = false := by
+  cases a <;> cases b <;> cases c <;> decide
+
+/-- the operand bound to AND keeps its MUST_NOT (no should-not is synthesised for it) -/
+example : (lenientFold ((chainFromN none false (.leaf 1 : Ast Nat) [(.or, true, .leaf 2), (.and, false, .leaf 3)]).map rawOf)).1
+    = .clause [(some .should, .leaf 1), (some .should, .clause [(some .mustNot, .leaf 2), (some .must, .leaf 3)])] := rfl
 
 /-- **`+` / `-` markers.** A list of clauses with optional markers and no operators means: every
     `+` clause matches, no `-` clause matches and, when no clause is required, at least one of the
